@@ -222,6 +222,12 @@ fn main() {
 				}
 			}
 		}
+		if (PeriodType::MAX as u64) > 255 {
+			// wide period types (C20): windows beyond 255 values
+			for (l, r) in [(250usize, 4usize), (4, 250), (127, 128), (200, 99), (500, 499), (1, 1000)] {
+				pairs.push(Params::NN(l as PeriodType, r as PeriodType));
+			}
+		}
 		let sys = Flat(MSys {
 			name: format!("{name}/deviation/{}-pairs", pairs.len()),
 			spec: spec(name),
@@ -239,7 +245,7 @@ fn main() {
 			check_peek: false,
 			extra: None,
 		});
-		h.go(&sys, &Limits::deviation(if thorough { 2 } else { 1 }, 600).wall_secs(900).states(400_000_000), true);
+		h.go(&sys, &Limits::deviation(if thorough { 2 } else { 1 }, if (PeriodType::MAX as u64) > 255 { 2200 } else { 600 }).wall_secs(900).states(400_000_000), true);
 	}
 	h.run.assume("reversal definition stated for the prescribed use: first input equals the construction value");
 	h.finish();
